@@ -41,9 +41,16 @@ def overrides_complete(chk, F, mname, rule):
         chk.inconclusive(rule, mname + ":overrides", "only %d pure virtual functions found in ConstitutiveModel (anchor changed)" % len(pure), "")
         return
     overridden = set()
-    for f in F.methods(mname):
-        for o in f.get("overrides", []):
-            overridden.add(o)
+    for cls in class_chain(F, mname):
+        if cls == base:
+            continue
+        for f in F.methods(cls):          # an intermediate base between the model and ConstitutiveModel may supply overriders
+            stack = list(f.get("overrides", []))
+            while stack:
+                o = stack.pop()
+                if o not in overridden:
+                    overridden.add(o)
+                    stack += F.fns[o].get("overrides", []) if o in F.fns else []
     missing = [f for f in pure if f["id"] not in overridden]
     rec = F.records.get(mname, {})
     if missing or rec.get("abstract"):
@@ -52,8 +59,35 @@ def overrides_complete(chk, F, mname, rule):
         chk.holds(rule, mname + ":overrides", "%d pure virtual functions all overridden; class is concrete" % len(pure), short(rec.get("loc", "")))
 
 
+def class_chain(F, mname):
+    """mname and its bases, most-derived first."""
+    out, todo = [], [mname]
+    while todo:
+        c = todo.pop(0)
+        if c in out or c not in F.records:
+            continue
+        out.append(c)
+        todo += [F.T(b["t"]) for b in F.records[c]["bases"]]
+    return out
+
+
 def tensor_methods(F, mname, sname, nparams):
-    return [f for f in F.methods(mname, sname) if "body" in f and len(f["params"]) == nparams]
+    """The member functions `sname` with nparams parameters that an object of class mname answers with: its own and
+    those inherited from a base that no more-derived class overrides (final overriders)."""
+    out, hidden = [], set()
+    for cls in class_chain(F, mname):
+        for f in F.methods(cls, sname):
+            if f["id"] in hidden:
+                continue
+            stack = list(f.get("overrides", []))
+            while stack:
+                o = stack.pop()
+                if o not in hidden:
+                    hidden.add(o)
+                    stack += F.fns[o].get("overrides", []) if o in F.fns else []
+            if "body" in f and len(f["params"]) == nparams:
+                out.append(f)
+    return [f for f in out if f["id"] not in hidden]
 
 
 def numeric_of(t):
